@@ -702,13 +702,6 @@ func (in *interp) evalArgs(fr *frame, fn *funcInfo, argNodes []*a.Node) []value 
 		ae := o.AsArg().Value()
 		v := in.eval(fr, ae)
 		prm := fn.args[i]
-		if v.k == vkIO && ae.Operator() == 0 && !fr.fn.derived && in.monitoring() {
-			// internal/cgen/statement.go only saves / reloads the iop_ pointers
-			// around a call when the calling function has "derived" I/O
-			// arguments: without one, what the callee reads or writes through
-			// a local io_bind'ed buffer is invisible to the caller.
-			in.event(Event{Prop: "C04", Kind: "io-local-not-synced-around-call", Node: in.nodeText(fr, ae), Line: fr.line})
-		}
 		if prm.typ.IsNumType() {
 			nt := in.p.numTypeOf(prm.typ)
 			v.n = in.checkRange(fr, "arg-range", ae, v.n, nt)
